@@ -362,6 +362,15 @@ def test_regex(seed):
                 e = norm(exp, None)
                 assert g == e, ("re.%s(%r, %r): model %r, python %r" % (name, p, text, g, e))
                 n += 1
+            # the same through the call hook the instrumented code goes through: module function and compiled-pattern method
+            from sx import hooks
+            for f in (lambda: hooks.sx_call(re.match, p, sym), lambda: hooks.sx_call(re.compile(p).match, sym), lambda: hooks.sx_call(re.compile(p).search, sym)):
+                try:
+                    got = f()
+                except core.Unsupported:
+                    continue
+                assert got is None or isinstance(got, symre.SymMatch), "call hook did not route %r on a symbolic string to the regex model" % p
+                n += 1
     core.CTX = None
     return n
 
